@@ -195,16 +195,20 @@ def judge(chk, res, hs, profile, stats):
     """attribute every divergence: explained by open known findings -> KNOWN-FINDING, otherwise VIOLATION"""
     hmap = {h["id"]: h for h in hs}
     for div in res.get("divergences", []) or []:
-        names = div.get("explain") or []
+        alts = div.get("explain") or []      # minimal sets of code deviations that reproduce the observed outcome
+        label = div["kind"] + ("<-" + "|".join("+".join(a) for a in alts) if alts else "")
         stats["divergences"] += 1
-        stats["by_kind"][div["kind"] + ("<-" + "+".join(names) if names else "")] = stats["by_kind"].get(div["kind"] + ("<-" + "+".join(names) if names else ""), 0) + 1
-        kfs = []
-        for n in names:
-            kf = vlib.match_known(PROP, {"kind": "as_coded", "op": div.get("op"), "detail": "explain=%s; kind=%s; %s | %s" % (n, div["kind"], div.get("detail", ""), " | ".join(div.get("diff") or []))})
-            if kf:
-                kfs.append(kf)
-        if names and len(kfs) == len(names):
-            for kf in kfs:
+        stats["by_kind"][label] = stats["by_kind"].get(label, 0) + 1
+        tail = "%s | %s" % (div.get("detail", ""), " | ".join(div.get("diff") or []))
+        covered = None
+        for names in alts:
+            kfs = [vlib.match_known(PROP, {"kind": "as_coded", "op": div.get("op"),
+                                           "detail": "explain=%s; kind=%s; %s" % (n, div["kind"], tail)}) for n in names]
+            if names and all(kfs):
+                covered = kfs
+                break
+        if covered:
+            for kf in covered:
                 chk.known.append((kf["id"], "%s [%s]" % (kf["what"], kf["id"])))
             continue
         stats["reported"] += 1
@@ -212,7 +216,7 @@ def judge(chk, res, hs, profile, stats):
             h = hmap.get(div["id"])
             what = "%s at step %d of history %s in %s%s\n%s\n%s\n%s" % (
                 div["kind"], div["step"], div["id"], profile_name(profile),
-                (" (reproduced by the deviation(s) %s of the code, no open known finding covers them)" % "+".join(names)) if names else "",
+                (" (reproduced by the code deviation(s) %s; not all of them are open known findings)" % " or ".join("+".join(a) for a in alts)) if alts else "",
                 div.get("detail", ""), "\n".join((div.get("diff") or [])[:8]), div.get("request", ""))
             chk.violation(what, {"property": PROP, "profile": dict(profile), "geom": stats["geom"], "history": h, "divergence": div})
 
